@@ -15,6 +15,7 @@ package main
 //   life close-waiting <k>                         Close while a receiver waits on the idle channel, then the receiver's context is cancelled
 //   life conn-close <nchan> <pending> [<gap>]      Conn.Close with <pending> unread packages per channel; logical channel <gap> closed before
 //   life close-pending <chan> <pending> <cap>      Close with <pending> packages of an abandoned response, queue capacity <cap>
+//   life queued-then-error <n>                     n packages queued, then the peer goes away: packages first, then the error
 //   life close-refused <once>                      Close of a logical channel whose teardown packet the transport refuses
 //   life unknown-token <tok> <len>                 a message starting with a token without a package type, then a DONE, then Conn.Close
 //   life reader-exit <errors>                      peer closes, <errors> read errors unconsumed, then Conn.Close: reader ends
@@ -489,6 +490,32 @@ func lifeImpl(line string) string {
 			return out + " reader=ended"
 		}
 		return out + " reader=alive"
+	case "queued-then-error":
+		// n packages have arrived and the peer has gone (the connection's error queue holds the read error):
+		// the consumer gets what was received first, each package in its turn, and only then the error
+		n := arg(2)
+		e, _ := newLifeEnvOwnReader(100)
+		defer e.conn.VerifCancel()
+		defer e.mc.Close()
+		ch := e.conn.VerifNewChannel(0)
+		e.feedDone(0, n, false)
+		if !waitQueued(ch, n) {
+			return "setup"
+		}
+		e.mc.end()
+		for i := 0; i < 300 && len(e.conn.VerifErrCh()) == 0; i++ {
+			time.Sleep(time.Millisecond)
+		}
+		return watchdog(wd, func() string {
+			var got []string
+			for i := 0; i <= n; i++ {
+				ctx, cancel := context.WithTimeout(context.Background(), time.Second)
+				pkg, err := ch.NextPackage(ctx, true)
+				cancel()
+				got = append(got, classify(pkg, err))
+			}
+			return "recv=" + strings.Join(got, ",")
+		})
 	case "close-refused":
 		// Close of a logical channel whose teardown packet the transport refuses (scenario shared with C12:
 		// `mux closefail`): Close reports it, the channel is closed and no longer routed all the same
@@ -552,6 +579,14 @@ func lifeOracle(line, out string) string {
 		if i := strings.Index(t, "="); i > 0 {
 			kv[t[:i]] = t[i+1:]
 		}
+	}
+	if f[1] == "queued-then-error" {
+		n, _ := strconv.Atoi(f[2])
+		want := "recv=" + strings.Repeat("pkg,", n) + "err"
+		if out != want {
+			return "what was received is handed out before an error queued behind it (then the error, promptly)"
+		}
+		return ""
 	}
 	if f[1] == "close-refused" {
 		if out != "ok_closefail" {
@@ -712,6 +747,11 @@ func init() {
 			}
 			for _, once := range []int{0, 1} {
 				emit(Case{Line: fmt.Sprintf("life close-refused %d", once), Kind: "close-teardown-refused"})
+			}
+			for _, n := range []int{1, 2, 3, 5, 8, 13} {
+				for r := 0; r < 3; r++ {
+					emit(Case{Line: fmt.Sprintf("life queued-then-error %d #%d", n, r), Kind: "received-before-errors"})
+				}
 			}
 			for _, tok := range []int{0xAB, 0xAE, 0x78, 0x7C, 0xA4, 0x01} { // INFO, CONTROL, OFFSET, PROCID, TABNAME, unassigned
 				for _, n := range []int{0, 1, 20, 600} {
